@@ -55,7 +55,7 @@ type cluster struct {
 	deadlocked atomic.Bool // a deadlock was reported at the inserted lock points
 	// lifeGids: goroutines other than the lifecycle task that are inside a lifecycle call right now (an application
 	// command that restarts the server): like the lifecycle task they keep only the hand-placed scheduling points
-	lifeGids sync.Map
+	lifeGids   sync.Map
 	harnessGid uint64
 	// Contend[i]: the i-th acquisition of the command lock meets a busy lock (phantom holder, see contend)
 	Contend  []bool
@@ -1013,12 +1013,29 @@ func (cl *cluster) probe(addr string, name string, budget int) (bool, string) {
 			}
 		}
 		if len(acts) == 0 {
+			// the probe's own tasks cannot move: somebody else may be in their way (a connection that holds the
+			// command lock while it is parked at a scheduling point), so the others run until the probe can go on
+			if t := cl.runnableServerTask(); t != nil {
+				cl.S.Logf("sched", "probe lets %s @%s run", t.Name, t.Where)
+				cl.S.Release(t)
+				continue
+			}
 			return false, "no progress possible (nobody accepts or serves the connection)"
 		}
 		cl.S.Logf("sched", "probe %s", acts[0].Key)
 		acts[0].Do()
 	}
 	return false, "step budget exhausted"
+}
+
+// runnableServerTask returns the first runnable task of the server (not the lifecycle task, not a harness task).
+func (cl *cluster) runnableServerTask() *sim.Task {
+	for _, t := range cl.S.Runnable() {
+		if t.Name != "life" && !cl.harnessTask[t.Name] {
+			return t
+		}
+	}
+	return nil
 }
 
 // isAcceptLoop: t is the accept loop of the listener at addr - parked in Accept, or (with inserted scheduling
